@@ -75,6 +75,10 @@ def case(draw):
             'forced_subdir': draw(st.sampled_from(pk))
             if pk and draw(st.booleans()) else None,
             'opts2': o2,
+            # the repository was hashed flat so far (one top-level Manifest
+            # listing everything as DATA, including package Manifest files
+            # that carry DIST entries); the profile is applied by an update
+            'flat_prior': draw(st.integers(0, 7)) == 0,
             # harness-owned directory listing order (neighbouring names
             # such as foo / foo-bin are met in either order)
             'scandir': draw(st.sampled_from([None, 'sorted', 'reversed',
@@ -294,6 +298,73 @@ def run_gemato(cmd, o, path, extra=()):
     return oc, [], None
 
 
+def run_flat_prior(desc, root, o, classes):
+    import hashlib
+    pkgs = sorted({os.path.dirname(p) for p in desc['repo']['files']
+                   if p.endswith('.ebuild') and p.count('/') == 2})
+    if not pkgs:
+        return skip('no-package')
+    dist = {}
+    for i, p in enumerate(pkgs):
+        if i % 2 == 0:
+            dist[p] = (f'DIST {os.path.basename(p)}-1.tar.gz 1234 MD5 '
+                       f'0123456789abcdef0123456789abcdef\n')
+            with open(os.path.join(root, p, 'Manifest'), 'w') as f:
+                f.write(dist[p])
+    lines = []
+    for dirpath, dirnames, filenames in os.walk(root):
+        dirnames[:] = [d for d in dirnames if not d.startswith('.')]
+        for fn in sorted(filenames):
+            full = os.path.join(dirpath, fn)
+            rel = os.path.relpath(full, root)
+            if fn.startswith('.') or rel.split('/')[0] in \
+                    repogen.IGNORED_TOP or not os.path.isfile(full):
+                continue
+            with open(full, 'rb') as f:
+                data = f.read()
+            lines.append('DATA %s %d MD5 %s' % (
+                R.escape_path(rel), len(data), hashlib.md5(data).hexdigest()))
+    with open(os.path.join(root, 'Manifest'), 'w') as f:
+        f.write('\n'.join(lines) + '\n')
+    snap0 = fsnap.snapshot(root)
+    oc, records, _ = run_gemato('update', o, root)
+    what = (f'`gemato update {" ".join(cli_args(o))}` on a repository that '
+            f'was hashed flat (package Manifests with DIST entries listed '
+            f'as DATA)')
+    classes.append('flat-prior')
+    if isinstance(oc.exc, NotImplementedError):
+        # the recorded C18 finding (a listed path that a new Manifest's
+        # default IGNOREs cover)
+        return skip('known-c18-now-ignored-path')
+    if oc.kind != 'return' or oc.value != 0:
+        return violation(
+            f'{what} failed: {oc.describe()} '
+            f'{[r.getMessage()[:100] for r in gem.error_records(records)]}',
+            sig='update-failed:flat-prior:' + (
+                buckets.signature(oc.exc) if oc.exc else 'exit'),
+            classes=classes)
+    for p, text in dist.items():
+        found = None
+        for suf in R.SUFFIXES:
+            mp = os.path.join(root, p, 'Manifest' + suf)
+            if os.path.exists(mp):
+                found = R.read_manifest_file(mp)
+        if found is None or text.strip() not in found.split('\n'):
+            return violation(
+                f'{what}: the DIST entry of {p}/Manifest is gone: '
+                f'{found!r}', sig='dist-entries-lost', classes=classes)
+    d = fsnap.diff(snap0, fsnap.snapshot(root))
+    alien = [x for x in fsnap.changed_paths(d)
+             if not os.path.basename(x).startswith('Manifest')]
+    if alien:
+        return violation(f'{what} touched {alien}',
+                         sig='non-manifest-touched', classes=classes)
+    # (whether the tree verifies afterwards is not claimed here: a Manifest
+    # file that is also listed as DATA is the input class of the recorded
+    # C03 finding manifest-also-listed-as-data)
+    return ok(nontrivial=True, classes=classes)
+
+
 def run_case(desc):
     import contextlib
     import shim
@@ -311,6 +382,8 @@ def run_case_ordered(desc):
         profile = o['profile']
         classes = ['profile:' + profile]
         tree = list_tree(root)
+        if desc.get('flat_prior') and profile != 'default':
+            return run_flat_prior(desc, root, o, classes)
         oc, records, _ = run_gemato('create', o, root)
         what = f'`gemato create {" ".join(cli_args(o))}`'
         if o.get('sort') is not None:
